@@ -467,7 +467,9 @@ where
         self.validate()?;
 
         let packet_id_buf = self.packet_id_buf.unwrap();
-        let remaining_length = VariableByteInteger::from_u32(2).unwrap(); // packet_id(2)
+        // packet_id (2 bytes for u16, 4 bytes for u32 packet ids)
+        let remaining_length =
+            VariableByteInteger::from_u32(packet_id_buf.as_ref().len() as u32).unwrap();
 
         Ok(GenericUnsuback {
             fixed_header: [FixedHeader::Unsuback.as_u8()],
